@@ -24,10 +24,21 @@ type c33LedgerPlan struct {
 }
 
 type c33AcceptPlan struct {
-	Kind   string `json:"kind"` // ok | fail-k | fail-until-heal | slow | fail-on-batch | flaky
+	Kind   string `json:"kind"` // ok | fail-k | fail-until-heal | slow | fail-on-batch | flaky | chunk-fail (batched exporters only)
 	K      int    `json:"k,omitempty"`
 	X      uint64 `json:"x,omitempty"`
 	SlowUS int    `json:"slow_us,omitempty"`
+	// chunk-fail: of every Every-th Accept call of the pipeline (at most K calls) the exporter
+	// refuses the chunks at position Pos (first | middle | last | not-last | not-first | even | odd)
+	Pos   string `json:"pos,omitempty"`
+	Every int    `json:"every,omitempty"`
+}
+
+// c33BatchPlan: every exporter of the scenario is the recording driver wrapped in the REAL
+// drivers.Batcher (built by drivers.NewWithBatchingDriverFactory, as internal/replication/module.go does).
+type c33BatchPlan struct {
+	MaxItems int `json:"max_items"` // 0 = unlimited (flush by interval only)
+	FlushUS  int `json:"flush_interval_us"`
 }
 
 type c33PipePlan struct {
@@ -72,6 +83,7 @@ type c33Scenario struct {
 	SyncUS   int             `json:"sync_us"` // 0 = one hour (never during a scenario)
 	Store    c33StorePlan    `json:"storage_faults"`
 	Ops      []c33Op         `json:"ops"`
+	Batch    *c33BatchPlan   `json:"batching,omitempty"`
 }
 
 // ---------- events ----------
@@ -94,7 +106,7 @@ func (e c33Event) String() string {
 		sb.WriteString(" " + e.Pipe)
 	}
 	switch e.Kind {
-	case "ack", "accept_err", "accept_abandoned", "poll":
+	case "ack", "accept_err", "accept_abandoned", "poll", "outer_accept", "outer_ok", "outer_err":
 		if e.N > 0 {
 			fmt.Fprintf(&sb, " ids=%d..%d n=%d", e.A, e.B, e.N)
 		} else {
@@ -160,6 +172,16 @@ type c33Pipe struct {
 	terminated  int // handlers that logged "Pipeline terminated."
 	zombie      bool
 	batches     int
+
+	// batched exporter (heavy only, protected by mon.mu). In batched mode maxAck is the
+	// CONTIGUOUS accepted prefix since the last reset (every id <= maxAck was in a chunk the
+	// recording driver accepted); acc holds accepted ids above it.
+	batched        bool
+	acc            map[uint64]struct{}
+	maxAttempted   uint64 // highest id that reached the recording driver since the last reset (accepted or refused)
+	outerSeq       int64
+	chunkFailCalls int
+	lastOuterNil   *c33OuterCall // last outer Accept that returned nil although a chunk of it was refused
 }
 
 func (p *c33Pipe) ctxClass() string {
@@ -197,6 +219,12 @@ type c33Mon struct {
 	byKey map[string]*c33Pipe // fixed after setup
 	byNm  map[string]*c33Pipe
 
+	// batched exporters (heavy only, under mu)
+	calls         map[int64]*c33OuterCall
+	callNo        int64
+	chunksPerCall map[string]int64
+	failPos       map[string]int64
+
 	healed    atomic.Bool
 	faultsOff atomic.Bool
 
@@ -205,12 +233,17 @@ type c33Mon struct {
 	nStoreCalls, nStoreApplied, nStoreErr               atomic.Int64
 	nPolls, nPollErr, nResets, nRestarts, nFaults       atomic.Int64
 	nCtlOps, nDriverStops, nLateStoreWindows            atomic.Int64
+
+	nOuterCalls, nOuterOK, nOuterErr, nChunks, nChunkRefused, nMixedChunks      atomic.Int64
+	nStaleItems, nAheadItems, nFailedThenOKLast, nPerItemErrChunks, nGlobalErrs atomic.Int64
+	nOuterNilWithRefusedChunk, nBatcherPanics                                   atomic.Int64
 }
 
 const c33MaxEvents = 400_000
 
 func newC33Mon(light bool) *c33Mon {
-	return &c33Mon{light: light, byKey: map[string]*c33Pipe{}, byNm: map[string]*c33Pipe{}}
+	return &c33Mon{light: light, byKey: map[string]*c33Pipe{}, byNm: map[string]*c33Pipe{},
+		calls: map[int64]*c33OuterCall{}, chunksPerCall: map[string]int64{}, failPos: map[string]int64{}}
 }
 
 // ev appends an event; mu must be held.
@@ -337,6 +370,7 @@ func (m *c33Mon) managerStarted() {
 func (m *c33Mon) markReset(p *c33Pipe, note string) {
 	p.epoch++
 	p.maxAck = 0
+	p.acc, p.maxAttempted = nil, 0
 	p.lateStore = false
 	p.fReset = true
 	p.resetMarked = true
@@ -400,12 +434,24 @@ func (m *c33Mon) storeApply(p *c33Pipe, last uint64, tok c33StoreTok, apply func
 			p.lateStore = true
 			m.violate(p, "C33/persisted-ahead-of-ack:late-store-after-reset",
 				fmt.Sprintf("StorePipelineState(%d) issued by the pre-reset run was applied after the reset cleared last_log_id; only %d acknowledged since the reset", last, p.maxAck))
-		case last <= p.everAck:
+		case last <= p.everAck && !(p.batched && last <= p.maxAttempted):
 			m.violate(p, "C33/persisted-ahead-of-ack:stale-cursor-after-reset",
 				fmt.Sprintf("StorePipelineState(%d): id acknowledged only before the last reset; %d acknowledged since", last, p.maxAck))
 		default:
-			m.violate(p, "C33/persisted-ahead-of-ack:store-before-ack",
-				fmt.Sprintf("StorePipelineState(%d) applied while the exporter acknowledged at most %d", last, p.maxAck))
+			msg := fmt.Sprintf("StorePipelineState(%d) applied while the exporter acknowledged at most %d", last, p.maxAck)
+			if p.batched {
+				msg += fmt.Sprintf(" without a gap: log %d was never in a chunk the exporter accepted since the last reset (highest id that reached the exporter: %d)", p.maxAck+1, p.maxAttempted)
+				if c := p.lastOuterNil; c != nil {
+					msg += fmt.Sprintf("; the real drivers.Batcher returned nil for Accept call #%d (ids %d..%d, flushed in %d chunks) although the exporter refused its chunk(s) at position %v and accepted only %d of its %d logs",
+						c.no, c.first, c.last, c.chunks, c.failedPos, c.accepted, c.n)
+				}
+			}
+			m.violate(p, "C33/persisted-ahead-of-ack:store-before-ack", msg)
+		}
+		if p.batched && !preReset {
+			// the skipped logs will never be sent again: resynchronise so that the scenario can finish
+			p.tainted = true
+			m.resyncBatched(p, last)
 		}
 	}
 	return nil
@@ -620,6 +666,333 @@ func (m *c33Mon) acceptAck(p *c33Pipe, d c33AcceptDecision, ctx context.Context,
 	}
 	if last := ids[len(ids)-1]; last > p.maxAck {
 		p.maxAck = last
+	}
+	if p.maxAck > p.everAck {
+		p.everAck = p.maxAck
+	}
+	p.fReset, p.fRestart, p.fStopStart, p.fAcceptErr, p.fPollErr = false, false, false, false, false
+	p.ackCount.Add(1)
+	p.lastAckLast.Store(ids[len(ids)-1])
+	return true
+}
+
+// ----- batched exporter: the REAL drivers.Batcher sits between the pipeline and the recording driver -----
+//
+// c33Outer (the driver the manager sees) numbers every Accept call of the pipeline and stamps
+// the number on each log it hands to the Batcher; the recording driver below the Batcher reads
+// the stamps back, so every flushed chunk is attributed to the call(s) it came from. A log is
+// accepted only when the recording driver returned nil for the chunk that contained it.
+
+type c33OuterCall struct {
+	no          int64 // scenario-wide number, stamped on every log of the call
+	seq         int64 // per pipeline
+	p           *c33Pipe
+	epoch       int
+	ctx         context.Context
+	first, last uint64
+	n           int
+	chunks      int
+	failedPos   []string
+	okChunks    int
+	lastOK      bool
+	accepted    int
+	failPlan    bool
+}
+
+type c33Item struct {
+	id       uint64
+	tag      string
+	ledger   string
+	call     int64
+	idx, n   int
+	stamped  bool
+}
+
+type c33CallPos struct {
+	c   *c33OuterCall
+	pos string // only | first | middle | last
+	idx int    // chunk index within the call
+}
+
+// c33Group: the logs of one pipeline inside one flushed chunk.
+type c33Group struct {
+	p     *c33Pipe
+	at    []int // positions in the chunk
+	items []c33Item
+	ids   []uint64
+	dec   c33AcceptDecision
+	calls []c33CallPos
+}
+
+func c33Bucket(n int) string {
+	switch {
+	case n <= 4:
+		return fmt.Sprint(n)
+	case n <= 8:
+		return "5-8"
+	case n <= 16:
+		return "9-16"
+	case n <= 32:
+		return "17-32"
+	}
+	return "33+"
+}
+
+func c33PosMatch(want, pos string, idx int) bool {
+	switch want {
+	case "first":
+		return pos == "first" || pos == "only"
+	case "last":
+		return pos == "last" || pos == "only"
+	case "middle":
+		return pos == "middle"
+	case "not-last":
+		return pos == "first" || pos == "middle"
+	case "not-first":
+		return pos == "middle" || pos == "last"
+	case "even":
+		return idx%2 == 0
+	case "odd":
+		return idx%2 == 1
+	}
+	return false
+}
+
+func (m *c33Mon) outerBegin(p *c33Pipe, ctx context.Context, ids []uint64) *c33OuterCall {
+	m.nOuterCalls.Add(1)
+	m.mu.Lock()
+	defer m.mu.Unlock()
+	m.callNo++
+	p.outerSeq++
+	c := &c33OuterCall{no: m.callNo, seq: p.outerSeq, p: p, epoch: p.epoch, ctx: ctx, first: ids[0], last: ids[len(ids)-1], n: len(ids)}
+	pl := p.plan.Accept
+	if pl.Kind == "chunk-fail" && !(m.healed.Load() || p.healedP.Load()) && p.chunkFailCalls < pl.K && (pl.Every <= 1 || c.seq%int64(pl.Every) == 0) {
+		p.chunkFailCalls++
+		c.failPlan = true
+	}
+	m.calls[c.no] = c
+	m.ev("outer_accept", p, c.first, c.last, c.n, fmt.Sprintf("call#%d -> real Batcher", c.no))
+	return c
+}
+
+func (m *c33Mon) outerEnd(c *c33OuterCall, err error) {
+	m.mu.Lock()
+	defer m.mu.Unlock()
+	p := c.p
+	live := c.ctx.Err() == nil
+	m.chunksPerCall[c33Bucket(c.chunks)]++
+	if len(c.failedPos) > 0 && c.lastOK {
+		m.nFailedThenOKLast.Add(1)
+	}
+	note := fmt.Sprintf("call#%d chunks=%d refused=%v accepted_logs=%d/%d", c.no, c.chunks, c.failedPos, c.accepted, c.n)
+	if err != nil {
+		m.nOuterErr.Add(1)
+		m.ev("outer_err", p, c.first, c.last, c.n, note+" Batcher.Accept -> "+err.Error())
+		return
+	}
+	m.nOuterOK.Add(1)
+	if live && c.epoch == p.epoch && c.accepted < c.n {
+		m.nOuterNilWithRefusedChunk.Add(1)
+		p.lastOuterNil = c
+		note += " BUT Batcher.Accept -> nil"
+	}
+	m.ev("outer_ok", p, c.first, c.last, c.n, note)
+}
+
+// chunkBegin attributes the group to its calls and applies the chunk-fail plan; called after acceptBegin.
+func (m *c33Mon) chunkBegin(g *c33Group) {
+	m.nChunks.Add(1)
+	m.mu.Lock()
+	defer m.mu.Unlock()
+	p := g.p
+	healed := m.healed.Load() || p.healedP.Load()
+	var cur *c33CallPos
+	for _, it := range g.items {
+		if !it.stamped {
+			continue
+		}
+		c := m.calls[it.call]
+		if c == nil {
+			continue
+		}
+		if cur == nil || cur.c != c {
+			g.calls = append(g.calls, c33CallPos{c: c, pos: "middle", idx: c.chunks})
+			cur = &g.calls[len(g.calls)-1]
+			c.chunks++
+		}
+		first := cur.pos == "first" || cur.pos == "only" || it.idx == 0
+		last := cur.pos == "last" || cur.pos == "only" || it.idx == it.n-1
+		switch {
+		case first && last:
+			cur.pos = "only"
+		case first:
+			cur.pos = "first"
+		case last:
+			cur.pos = "last"
+		}
+	}
+	for _, cp := range g.calls {
+		if cp.c.failPlan && !healed && !g.dec.fail && c33PosMatch(p.plan.Accept.Pos, cp.pos, cp.idx) {
+			g.dec.fail, g.dec.why = true, "chunk-fail:"+p.plan.Accept.Pos
+			m.nFaults.Add(1)
+		}
+	}
+}
+
+func (g *c33Group) note() string {
+	var sb strings.Builder
+	for i, cp := range g.calls {
+		if i > 0 {
+			sb.WriteString(" + ")
+		}
+		fmt.Fprintf(&sb, "call#%d chunk#%d(%s)", cp.c.no, cp.idx, cp.pos)
+	}
+	for i := 1; i < len(g.ids); i++ {
+		if g.ids[i] != g.ids[i-1]+1 {
+			fmt.Fprintf(&sb, " ids=%v", g.ids)
+			break
+		}
+	}
+	return sb.String()
+}
+
+// chunkFail: the recording driver refuses (or, abandoned, never delivers) the group's logs.
+func (m *c33Mon) chunkFail(g *c33Group, why string, abandoned bool) {
+	p := g.p
+	if abandoned {
+		m.nAbandoned.Add(1)
+	} else {
+		m.nAcceptErr.Add(1)
+		m.nChunkRefused.Add(1)
+	}
+	m.mu.Lock()
+	defer m.mu.Unlock()
+	delete(p.inflight, g.dec.id)
+	kind := "accept_err"
+	if abandoned {
+		kind = "accept_abandoned"
+	} else {
+		p.fAcceptErr = true
+	}
+	m.ev(kind, p, g.ids[0], g.ids[len(g.ids)-1], len(g.ids), why+" "+g.note())
+	for _, cp := range g.calls {
+		cp.c.failedPos = append(cp.c.failedPos, cp.pos)
+		if cp.pos == "last" || cp.pos == "only" {
+			cp.c.lastOK = false
+		}
+		if !abandoned {
+			m.failPos[cp.pos]++
+		}
+	}
+	for _, it := range g.items {
+		if c := m.calls[it.call]; it.stamped && c != nil && c.epoch == p.epoch && it.id == p.maxAttempted+1 {
+			p.maxAttempted = it.id
+		}
+	}
+}
+
+// resyncBatched: pretend everything up to id was accepted; mu held.
+func (m *c33Mon) resyncBatched(p *c33Pipe, id uint64) {
+	if id > p.maxAck {
+		p.maxAck = id
+	}
+	for k := range p.acc {
+		if k <= p.maxAck {
+			delete(p.acc, k)
+		}
+	}
+	for {
+		if _, ok := p.acc[p.maxAck+1]; !ok {
+			break
+		}
+		delete(p.acc, p.maxAck+1)
+		p.maxAck++
+	}
+	if p.maxAttempted < p.maxAck {
+		p.maxAttempted = p.maxAck
+	}
+	if p.maxAck > p.everAck {
+		p.everAck = p.maxAck
+	}
+}
+
+// chunkAck: the recording driver is about to return nil for the group's logs. Same oracles as
+// acceptAck, stated per log: the stream of logs reaching the exporter from a live call never
+// jumps ahead of what was sent before (no gap), and maxAck is the contiguous accepted prefix.
+func (m *c33Mon) chunkAck(g *c33Group, ctx context.Context, produced func() int) bool {
+	p := g.p
+	m.mu.Lock()
+	defer m.mu.Unlock()
+	delete(p.inflight, g.dec.id)
+	ids := g.ids
+	if ctx.Err() != nil {
+		m.nAbandoned.Add(1)
+		m.ev("accept_abandoned", p, ids[0], ids[len(ids)-1], len(ids), "context of the Batcher cancelled "+g.note())
+		for _, cp := range g.calls {
+			cp.c.failedPos = append(cp.c.failedPos, cp.pos)
+		}
+		return false
+	}
+	m.nAcks.Add(1)
+	m.nAckedLogs.Add(int64(len(ids)))
+	m.ev("ack", p, ids[0], ids[len(ids)-1], len(ids), g.note())
+	p.batches++
+	for _, cp := range g.calls {
+		cp.c.okChunks++
+		if cp.pos == "last" || cp.pos == "only" {
+			cp.c.lastOK = true
+		}
+	}
+	for _, it := range g.items {
+		want := fmt.Sprintf("%s#%d", p.plan.Ledger, it.id)
+		if it.tag != want || it.ledger != p.plan.Ledger {
+			m.violate(p, "C33/foreign-ledger-log",
+				fmt.Sprintf("pipeline of ledger %s acknowledged log tagged %q (LogWithLedger.Ledger=%q, id %d)", p.plan.Ledger, it.tag, it.ledger, it.id))
+			p.tainted = true
+			break
+		}
+	}
+	n := uint64(produced())
+	for _, it := range g.items {
+		if it.id > n {
+			m.violate(p, "C33/phantom-log", fmt.Sprintf("acknowledged id %d but ledger has %d logs", it.id, n))
+			break
+		}
+	}
+	for _, it := range g.items {
+		c := m.calls[it.call]
+		if !it.stamped || c == nil {
+			m.violate(p, "C33/batched-log-without-call-stamp", fmt.Sprintf("log %d reached the exporter without the stamp of the Accept call it was handed to the Batcher in", it.id))
+			p.tainted = true
+			continue
+		}
+		if c.epoch != p.epoch {
+			m.nStaleItems.Add(1) // left in the Batcher by a call of the run before the reset: a duplicate, proves nothing about this run
+			continue
+		}
+		c.accepted++
+		if c.ctx.Err() == nil && it.id > p.maxAttempted+1 {
+			sig := "C33/ack-gap:" + p.ctxClass()
+			if p.epoch > 0 && p.maxAttempted == 0 {
+				sig = "C33/reset-not-from-first:" + p.ctxClass()
+			}
+			m.violate(p, sig, fmt.Sprintf("log %d reached the exporter (call#%d) but the highest id sent to it since the last reset is %d (logs %d..%d skipped)", it.id, c.no, p.maxAttempted, p.maxAttempted+1, it.id-1))
+			p.tainted = true
+			m.resyncBatched(p, it.id-1) // resynchronise so that the scenario can finish
+		}
+		if it.id > p.maxAttempted {
+			p.maxAttempted = it.id
+		}
+		if it.id > p.maxAck+1 {
+			m.nAheadItems.Add(1) // accepted while an earlier chunk was refused: replayed later
+		}
+		if it.id > p.maxAck {
+			if p.acc == nil {
+				p.acc = map[uint64]struct{}{}
+			}
+			p.acc[it.id] = struct{}{}
+			m.resyncBatched(p, p.maxAck)
+		}
 	}
 	if p.maxAck > p.everAck {
 		p.everAck = p.maxAck
